@@ -22,7 +22,7 @@ type c14Case struct {
 	Types   []int  `json:"types"`
 	Sizes   []int  `json:"sizes"`
 	SC      []int  `json:"start_code_lengths"`
-	Content int    `json:"content"` // 0 non-zero filler, 1 interior single zeros, 2 interior 00 00 03
+	Content int    `json:"content"`                  // 0 non-zero filler, 1 interior single zeros, 2 interior 00 00 03
 	Hdr     int    `json:"header_variant,omitempty"` // other NAL header bits: avc nal_ref_idc = Hdr-1; hevc (layer id, temporal id + 1) = (1,7), (32,1), (63,7)
 }
 
